@@ -29,6 +29,7 @@ Definition twin_op (v : view) (o : op) : list op :=
   | OSlicedS a b s => [OSlicedS (a - f) (b - f) s]
   | OBlocked a b => [OSliced (a - f) (b - f)]
   | OReindexed _ => []
+  | OReindexedL _ => []
   | OParen args => [OParen (twin_paren args v)]
   | _ => [o]
   end.
